@@ -14,6 +14,7 @@ import (
 	"crypto/sha256"
 	"encoding/json"
 	"fmt"
+	"io"
 	"os"
 	"os/exec"
 	"path/filepath"
@@ -331,6 +332,9 @@ func c11Find(name string) (c11Scenario, bool) {
 
 var c11Seq int
 
+// c11Again: c11Exec observes the SECOND run of the command in one working directory.
+var c11Again bool
+
 // c11Exec runs the scenario once in a private directory.
 func c11Exec(sc c11Scenario, seed, threads int, plain bool, sub *vrt.SubIn) (obs c11Obs, out *vrt.SubOut, err error) {
 	c11Seq++
@@ -366,6 +370,13 @@ func c11Exec(sc c11Scenario, seed, threads int, plain bool, sub *vrt.SubIn) (obs
 	bin := filepath.Join(mc.ScratchDir, "goalign-instr")
 	if plain {
 		bin = filepath.Join(mc.ScratchDir, "goalign-plain")
+	}
+	if c11Again {
+		// the command has been run in this directory before (its output files exist): a first, unobserved run
+		pre := exec.Command(bin, args...)
+		pre.Dir = work
+		pre.Stdout, pre.Stderr = io.Discard, io.Discard
+		pre.Run()
 	}
 	cmd := exec.Command(bin, args...)
 	cmd.Dir = work
@@ -628,6 +639,21 @@ func c11Plain(c *mc.Ctx, r c11Run) {
 	if sc.Name == "seqboot-tar" || sc.Name == "seqboot-gz" {
 		return // archive headers carry the wall clock: decided by the clock choice points of the instrumented runs, not by two timed runs
 	}
+	// run twice in the same directory (a pipeline that is run again over its old output files): the second run
+	// must give what a run in an empty directory gives
+	if r.Threads <= 1 {
+		c11Again = true
+		a3, _, err3 := c11Exec(sc, r.Seed, r.Threads, true, nil)
+		c11Again = false
+		if err3 != nil {
+			c.Fatal("%s: %v", sc.Name, err3)
+			return
+		}
+		c.Count("runs_plain", 2)
+		if d3 := c11Diff(a, a3); d3 != "" {
+			c.Violation("C11/"+sc.Name+"/second-run-in-the-same-directory-differs", fmt.Sprintf("goalign %s (seed %d) run again in the directory that holds the output of its first run gives different output: %s", strings.Join(sc.Args, " "), r.Seed, c11Short(d3)), r)
+		}
+	}
 	if d := c11Diff(a, p); d != "" {
 		// Either the command is not reproducible (which the exploration decides, deterministically) or the
 		// instrumentation changed behaviour.  Tell them apart: the plain binary again.
@@ -794,7 +820,7 @@ func init() {
 		ID:    "C11",
 		Level: "model_checking",
 		Rule: "subprocess-mode exploration of the goalign binary instrumented from the current tree: for each of the listed command scenarios (every documented command family, 1-3 flag sets each, on small nucleotide / protein / multi-Phylip / malformed-second-alignment inputs) x seeds {1,7} (randomised commands; shuffle seqs and sample sites also 0, -2, -1234567890123, build seqboot and mutate snvs also -2: every seed but the documented -1 replays) x --threads {1,2,3,16} (threaded commands; distances of a 7-row alignment with 3, 4 and 5 threads: more rows than workers, neither the rows nor the rows less one a multiple of the workers): the default execution, then EVERY execution within 2 (quick) / 3 (thorough) deviations from it when run with one thread, 2 deviations with 2 threads and 1 deviation with 3 and 16 threads (both tiers) — a deviation is one scheduling decision other than the default (keep the running goroutine, else the lowest runnable id) at a channel/mutex/WaitGroup/spawn operation, one non-sorted iteration order at a ranged map, or one clock step at time.Now — must give exactly the bytes (stdout, exit status, every file written) of the default one-thread execution, end normally, and show no data race (vector clocks). " +
-			"Reformat chains: ALL format sequences of <=3 conversions among fasta/phylip/nexus/clustal that return to the starting format, on 8 inputs (one whose names hold multi-byte UTF-8 characters, one that fits no alphabet as a whole, one with '?', '*' and lower case, one whose names are NEXUS keywords but for their case), must return the starting bytes; build distboot == build seqboot + compute distance for 9 models (6 nucleotide, 3 protein on a gapped protein alignment) x {no flag, -r, --alpha 0.7, both} x 2 seeds, and x partial bootstrap -f 0.5, 0.25. Each scenario also runs on the uninstrumented binary and on the instrumented binary in pass-through mode (must agree). states/transitions = nodes/edges of the choice trees; distinct_nontrivial = distinct (scenario, seed, threads, choice list) executions compared.",
+			"Reformat chains: ALL format sequences of <=3 conversions among fasta/phylip/nexus/clustal that return to the starting format, on 8 inputs (one whose names hold multi-byte UTF-8 characters, one that fits no alphabet as a whole, one with '?', '*' and lower case, one whose names are NEXUS keywords but for their case), must return the starting bytes; build distboot == build seqboot + compute distance for 9 models (6 nucleotide, 3 protein on a gapped protein alignment) x {no flag, -r, --alpha 0.7, both} x 2 seeds, and x partial bootstrap -f 0.5, 0.25. Each scenario also runs on the uninstrumented binary and on the instrumented binary in pass-through mode (must agree), and a second time in the directory that holds the output files of a first run (must give what a run in an empty directory gives). states/transitions = nodes/edges of the choice trees; distinct_nontrivial = distinct (scenario, seed, threads, choice list) executions compared.",
 		Assumptions: []string{
 			"scheduling points only at synchronisation operations (channel, mutex, WaitGroup, go); data races are reported separately by vector clocks",
 			"stderr is not compared (log lines); dependencies (cobra, gzip, xz, tar) are not instrumented: they spawn no goroutines and range over no maps on these paths",
